@@ -86,6 +86,11 @@ def run_group(entry, sc, seed, variant, kind):
         if kind == "modes":
             q, u = _query(entry, X, y, np.array(unl), seed, variant, reuse)
             obs.append(("idx", {i: u[0, i] for i in unl}, int(q[0]), True, True))
+            if len(unl) >= 2:
+                # the same index set in another order (descending / shuffled): an index array addresses a set
+                sh = unl[::-1] if seed % 2 == 0 else [int(i) for i in rng.permutation(unl)]
+                q, u = _query(entry, X, y, np.array(sh), seed, variant, reuse)
+                obs.append(("idx-reordered", {i: u[0, i] for i in unl}, int(q[0]), True, True))
             if entry.rows:
                 q, u = _query(entry, X, y, X[unl].copy(), seed, variant, reuse)
                 obs.append(("rows", {unl[k]: u[0, k] for k in range(len(unl))}, unl[int(q[0])], True, True))
